@@ -152,6 +152,8 @@ def _parse_witness(out, want_note=None):
 def search(pid, ob, repo, scratch):
     ops = ops_for(ob.get('fn', ''))
     fn = ob.get('fn', '')
+    if pid == 'C14' and ob.get('unit') == 'c13_tree':
+        ops = ['dom.preorder_after_edits']
     if pid == 'C12' and (fn.startswith('HasChildren::') or fn.endswith('::insert_by_id') or fn.endswith('::delete_by_id')):
         ops = ['dom.views_after_edits', 'dom.tree_atomic']
     if ob.get('unit') == 'eval_ctx' or fn.startswith('eval_') or fn.startswith('model::Context::') or (pid == 'C06' and fn.startswith('xpath::func::')):
@@ -165,6 +167,13 @@ def search(pid, ob, repo, scratch):
         env['REPLAY_POLICY'] = 'whole' if pid == 'C15' else 'fragment'
         # a safety obligation names its failing sites (file:line): prefer a witness that panics exactly there
         sites = [m.group(1) for s in (ob.get('sites') or []) for m in [re.search(r'@([\w/\.]+:\d+)$', s)] if m]
+        # edit-history grids: prefer the scenario that exercises the function whose obligation failed
+        prefer = {'HasChildren::append': 'append_new_after_child_with_descendants', 'HasChildren::insert_before': 'move_within_parent_before',
+                  'XmlElement::last_child_or_self_id': 'append_new_after_child_with_descendants', 'XmlDocument::last_child_or_self_id': 'append_new_after_child_with_descendants',
+                  'XmlElement::append_attribute': 'set_attribute_on_element_with_children'}
+        for k, v in prefer.items():
+            if fn.startswith(k) and op.endswith('_after_edits'):
+                sites = [v]
         p = subprocess.run([exe, 'grid', op, '40' if sites else '3'], capture_output=True, text=True, timeout=900, env=env)
         w = _parse_witness(p.stdout, sites) if sites else None
         if w is None:
